@@ -628,10 +628,10 @@ Proof.
     + eapply candidates_nonempty; [exact Hs | exact Ec | eapply nth_error_In; exact En].
     + unfold ce_len. now rewrite <- Hcom.
   - destruct (Nat.leb _ _); [exact I|]. apply fine_bind; [now apply fine_ss_select|]. intros [y' [sy|]] _; [|exact I].
-    apply fine_bind; [now apply fine_insert_or_replace | intros; exact I].
+    apply fine_bind; [apply fine_insert_or_replace; [exact W | intros Hf; apply char_at_cursor_lt; now apply Hact] | intros; exact I].
   - cbn [sel_inv] in Hsel. destruct sym as [code|ch]; [discriminate|]. cbn [special_menu special_select obind].
     destruct (Nat.leb _ _); [exact I|]. destruct (match special_find_category ch with Some _ => _ | None => _ end) as [sy|]; [|exact I].
-    apply fine_bind; [now apply fine_insert_or_replace | intros; exact I].
+    apply fine_bind; [apply fine_insert_or_replace; [exact W | intros Hf; apply char_at_cursor_lt; now apply Hact] | intros; exact I].
 Qed.
 
 Lemma fine_reselect_at_cursor (s : shared') : cursor (com s) < ce_len (com s) -> fine (reselect_at_cursor dops s).
